@@ -906,7 +906,13 @@ class OmniParser(PVLParser):
                         )
                         return module, False  # return through parse_module()
                 else:
+                    # The previous value cannot be a Parameter Name, so
+                    # this equals sign is just out of place.  Return the
+                    # token and signal parse_module() that it should ignore
+                    # us (claiming that parsing can continue here would
+                    # make parse_module() loop on this token forever).
                     tokens.send(t)
+                    raise Exception
             else:
                 # The next token isn't an equals sign or the module is
                 # empty, so we want return the token and signal
